@@ -30,6 +30,7 @@ import (
 	"os"
 	"path/filepath"
 	"strconv"
+	"time"
 
 	"wa-lang.org/wa/api"
 	"wa-lang.org/wa/internal/wat/watutil"
@@ -45,6 +46,7 @@ type result struct {
 	OutLines  int                    `json:"out_lines"`
 	Modes     map[string]*modeResult `json:"modes,omitempty"`
 	Rewritten []string               `json:"rewritten,omitempty"`
+	Ms        map[string]int64       `json:"ms,omitempty"`
 }
 
 type modeResult struct {
@@ -89,16 +91,22 @@ func runProgram(file, traceFile string, maxEvents int) (res result) {
 		return result{Status: "build-error", Error: err.Error()}
 	}
 	vname := filepath.Base(file)
+	res.Ms = map[string]int64{}
+	t0 := time.Now()
+	lap := func(k string) { res.Ms[k] = time.Since(t0).Milliseconds(); t0 = time.Now() }
 	mainFunc, wat, fset, err := api.BuildFile(api.DefaultConfig(), vname, string(src))
 	if err != nil {
 		return result{Status: "build-error", Error: err.Error()}
 	}
+	lap("build")
 	// --- baseline: exactly api.RunCode's path
 	wasm0, err := watutil.Wat2Wasm(vname, wat)
 	if err != nil {
 		return result{Status: "asm-error", Error: "baseline: " + err.Error()}
 	}
+	lap("asm0")
 	stdout, stderr, berr := wazero.RunWasm(vname, wasm0, fset, mainFunc)
+	lap("run0")
 	base := append(append([]byte{}, stdout...), stderr...)
 	res.OutLines = bytes.Count(base, []byte("\n"))
 	sum := sha1.Sum(base)
@@ -118,6 +126,7 @@ func runProgram(file, traceFile string, maxEvents int) (res result) {
 		res.Status, res.Error = "asm-error", "rewritten: "+err.Error()
 		return
 	}
+	lap("asm1")
 	res.Modes = map[string]*modeResult{}
 	for _, mode := range []string{"poison", "quarantine"} {
 		tr := newTracker(mode)
@@ -143,6 +152,7 @@ func runProgram(file, traceFile string, maxEvents int) (res result) {
 			}
 		}
 		res.Modes[mode] = mr
+		lap("run_" + mode)
 	}
 	res.Status = "ok"
 	return
